@@ -217,7 +217,13 @@ class Runner:
                     for x in v.fields["of"]:
                         rec(x)
                 elif v.cls in self.pure_like:
-                    out.append(v)
+                    ops = v.fields.get("ops")
+                    if isinstance(ops, list) and ops:
+                        # an operand that is itself built from operands (Effect.get_op_list lists its leaves)
+                        for x in ops:
+                            rec(x)
+                    else:
+                        out.append(v)
             elif isinstance(v, (list, tuple)):
                 for x in v:
                     rec(x)
